@@ -836,7 +836,7 @@ Lemma build_with_keeps_plain dl nl fuel x w st s : xplain_at w x -> build_with d
   exists w', witness_in s w' /\ s_name w' = xname w.
 Proof.
   intros Hp H. unfold build_with in H.
-  destruct (bnode dl nl fuel x x None false 0 bstate0)
+  destruct (bnode dl nl fuel x x [] false 0 bstate0)
     as [st1 [ks| |]] eqn:E; try discriminate.
   injection H as <- <-.
   eapply (bnode_keeps_plain _ _ w x Hp) in E. destruct E as (x' & w' & -> & Hp' & Hnm).
